@@ -47,7 +47,7 @@ def monitor(hdr, cmd, pre, res, post, info, tconst):
     ret, calls, herr, thrown = res
     fl, arch, hk = hdr["fl"], hdr["arch"], hdr["h"]
     where = "%s/%s" % (ARCH[arch], FL[fl])
-    kind = "I" if cmd[0] in ("J", "K") else cmd[0]
+    kind = "I" if cmd[0] in ("J", "K", "V") else cmd[0]
     failed = ret != 0 or thrown
     setter = kind in ("O", "X", "M")
     if failed:
@@ -81,7 +81,10 @@ def monitor(hdr, cmd, pre, res, post, info, tconst):
             m = re.search(r"badreg enc=(\d+)((?: \S+)*?) inst", info)
             enc = int(m.group(1)); ops = m.group(2).split()
             for op in ops:
-                if op == "extra.k":
+                if op.endswith(".segment"):
+                    out.append(("C14/x86-invalid-segment-accepted/%s" % op, "x86: a memory operand whose segment field is 7 (names no segment register) was accepted under "
+                                "strict validation and emitted without a prefix (%s)" % info.strip()))
+                elif op == "extra.k":
                     out.append(("C14/kreg-id-ge-8", "x86: {k} extra register with id >= 8 accepted under strict validation (%s)" % info.strip()))
                 elif arch == 2:
                     out.append(("C14/a64-invalid-reg-id-accepted/%s/%s" % (tconst["a64_enc_names"].get(enc, str(enc)), op),
@@ -136,6 +139,10 @@ def run_shard(args):
                 continue
             if a[0] == "P":
                 res["probes"] = a[2:]
+                if "bind_atomic=1" not in a:
+                    res["viol"].append({"key": "C14/bind-invalid-displacement-binds-label", "what": "probe: bind() of a label with a pending rel8 fixup 200 bytes away "
+                                        "reports kInvalidDisplacement but leaves the label bound (bind_label no longer checks the displacements before it binds): " + a,
+                                        "session": -1, "call": -1, "cmd": "P", "info": "short jmp L; 200 bytes; bind L"})
                 if a != b:
                     res["disagree"].append({"session": cur, "call": -1, "cmd": "P", "impl": a, "model": b})
                 continue
@@ -178,6 +185,12 @@ def run_shard(args):
                     res["ok_insts"] += 1
             if "xsec-fixup" in info:
                 res["classes"]["cross-section reference to a bound label (holder-level fixup)"] = res["classes"].get("cross-section reference to a bound label (holder-level fixup)", 0) + 1
+            if cmd[0] == "B" and r[0] == tconst["kInvalidDisplacement"]:
+                kb = "bind refused: a pending displacement does not fit (computed by the model from the fixup formats)"
+                res["classes"][kb] = res["classes"].get(kb, 0) + 1
+            if cmd[0] == "V":
+                key = "vsib-path vgatherdps/%s" % ("err %d" % r[0] if failed else "ok")
+                res["classes"][key] = res["classes"].get(key, 0) + 1
             if cmd[0] == "K":
                 key = "mem-path add r32,[mem]/%s" % ("err %d" % r[0] if failed else "ok %s bytes" % (int(post.split("sz=")[1].split()[0].split(",")[int(post.split("cur=")[1].split()[0])]) - int(pre.split("sz=")[1].split()[0].split(",")[int(pre.split("cur=")[1].split()[0])])))
                 res["classes"][key] = res["classes"].get(key, 0) + 1
@@ -208,6 +221,9 @@ def run_shard(args):
                     thrown = bool(e1 & 0x10000); err = e1 & 0xFFFF
                     k0 = "finalize/%s" % ("ok" if e1 == 0 else "error thrown" if thrown else "error returned")
                     res["classes"][k0] = res["classes"].get(k0, 0) + 1
+                    if fkv.get("fin2", "-1") != "-1":
+                        k2 = "finalize again after a failed%s finalize (recycled vs fresh compared)" % (" and thrown-out-of" if thrown else "")
+                        res["classes"][k2] = res["classes"].get(k2, 0) + 1
                     where = "%s/%s" % (ARCH[h["arch"]], FL[h["fl"]])
                     if e1 == 0 and fc1 != 0:
                         res["viol"].append({"key": "C14/%s/finalize/handler-called-on-success" % where, "what": "finalize() succeeded but invoked the error handler %d times" % fc1,
@@ -385,6 +401,18 @@ def run(ck):
         if rcp != 0 or "END" not in outp:
             summ = re.findall(r"runtime error: (.*)", errp) or re.findall(r"SUMMARY: (.*)", errp) or ["rc=%d" % rcp]
             ck.violation(key, "%s: %s" % (what, summ[0][:200]), {"command": "c14_harness " + mode, "stderr": errp[-800:]})
+    rcp, outp, errp = vlib.sh([impl, "probe-constpool"], timeout=300)
+    mcp = re.search(r"PROBE constpool asm_err=(\d+) asm_size=(\d+)/(\d+) builder_err=(\d+) builder_nodes=(\d+)/(\d+)", outp)
+    if rcp != 0 or not mcp:
+        ck.violation("C14/sanitizer/probe-constpool", "the embed_const_pool probe aborted: %s" % (errp[-300:]), {"command": "c14_harness probe-constpool"})
+    else:
+        ae, a0, a1, be, b0, b1 = [int(x) for x in mcp.groups()]
+        if (ae != 0 and a0 != a1) or (be != 0 and b0 != b1):
+            ck.violation("C14/embed-const-pool-partial-effect", "embed_const_pool(label, pool) with an already bound label fails (Assembler error %d, Builder error %d) AFTER it "
+                         "aligned: Assembler offset %d -> %d, Builder nodes %d -> %d (a failed call with a lasting effect)" % (ae, be, a0, a1, b0, b1),
+                         {"command": "c14_harness probe-constpool", "output": outp.strip()})
+        elif ae == 0 or be == 0:
+            ck.violation("C14/embed-const-pool-accepts-bound-label", "embed_const_pool with an already bound label succeeded: " + outp.strip(), {"command": "c14_harness probe-constpool"})
     rc, outw, errw = sweep_future.result()
     sweep_pool.shutdown()
     if rc != 0 or "END" not in outw[-10:]:
